@@ -204,7 +204,11 @@ func tableEntryObligation(P *Program, tb *TableSpec, key, fnName string) (obls [
 				var ds []Term
 				for _, tm := range tmods {
 					if tm.heap == cm.heap {
-						ds = append(ds, eq(tm.id, cm.id))
+						if cm.ghost != "" {
+							ds = append(ds, "true")
+						} else {
+							ds = append(ds, eq(tm.id, cm.id))
+						}
 					}
 				}
 				goals = append(goals, or(ds...))
@@ -445,7 +449,11 @@ func refineOne(P *Program, ic *FuncContract, ifaceT types.Type, c *FuncContract,
 					var ds []Term
 					for _, im := range imods {
 						if im.heap == cm.heap {
-							ds = append(ds, eq(im.id, cm.id))
+							if cm.ghost != "" {
+								ds = append(ds, "true")
+							} else {
+								ds = append(ds, eq(im.id, cm.id))
+							}
 						}
 					}
 					gs = append(gs, or(ds...))
